@@ -1,5 +1,5 @@
 """C04 — parsing untrusted bytes never panics, aborts or hangs."""
-import json, os, collections, hashlib, random, re
+import json, os, collections, hashlib, random, re, shutil, subprocess, sys, time
 from concurrent.futures import ThreadPoolExecutor
 import vlib
 from vlib import Check, tlc, run_bin, workdir, write_ndjson, read_ndjson, log
@@ -98,6 +98,28 @@ def count_huge(d):
     return False
 
 
+def private_bin(w):
+    """The harness binary copied into this run's work directory.  With VERIF_REPO the build lives in a shadow crate under
+    .work/ that other runs (mutant evaluation) clean away; the generation phase takes minutes, so the later steps must not
+    depend on it."""
+    dst = os.path.join(w, "c04-bin")
+    shutil.copy2(os.path.join(vlib.build_harness("c04"), "c04"), dst)
+
+    def call(args, timeout=3000):
+        t0 = time.time()
+        try:
+            p = subprocess.run([dst] + [str(a) for a in args], stdout=subprocess.PIPE, stderr=subprocess.PIPE, text=True, timeout=timeout)
+        except subprocess.TimeoutExpired:
+            raise vlib.ToolError("harness c04 %s timed out after %ss" % (args, timeout))
+        if p.returncode != 0:
+            sys.stdout.write(p.stdout[-3000:])
+            sys.stdout.write(p.stderr[-3000:])
+            raise vlib.ToolError("harness c04 %s exited %d" % (args, p.returncode))
+        log("[harness] c04 %s %.1fs" % (" ".join(str(a) for a in args)[:200], time.time() - t0))
+        return p
+    return call
+
+
 def run(tier):
     chk = Check("C04", META["level"], tier)
     quick = tier == "quick"
@@ -120,7 +142,8 @@ def run(tier):
 
     # ---------------------------------------------------------------- seeds for the generator
     seeds, docs = os.path.join(w, "seeds.ndjson"), os.path.join(w, "docs.ndjson")
-    run_bin("c04", ["seeds", "--seed", seed, "--n", 4 if quick else 10, "--out", seeds])
+    c04 = private_bin(w)
+    c04(["seeds", "--seed", seed, "--n", 4 if quick else 10, "--out", seeds])
     run_bin("c02", ["docs", "--seed", seed, "--n", 16 if quick else 48, "--max-objects", 5, "--max-revs", 2, "--out", docs])
     env = {"SEEDS": seeds, "DOCS": docs}
 
@@ -263,12 +286,12 @@ def run(tier):
     nbulk = 700 if quick else 60000
     bpath = os.path.join(w, "bulk.ndjson")
     first_bulk = len(cases) + len(selftests)
-    run_bin("c04", ["bulk", "--seed", seed, "--n", nbulk, "--first-id", first_bulk, "--out", bpath])
+    c04(["bulk", "--seed", seed, "--n", nbulk, "--first-id", first_bulk, "--out", bpath])
     with open(cin, "a") as f, open(bpath) as g:
         for line in g:
             f.write(line)
     cout = os.path.join(w, "results.ndjson")
-    run_bin("c04", ["run", "--in", cin, "--out", cout, "--jobs", 12 if quick else 16, "--max-hangs", 12 if quick else 60], timeout=3000)
+    c04(["run", "--in", cin, "--out", cout, "--jobs", 12 if quick else 16, "--max-hangs", 12 if quick else 60])
     outs = read_ndjson(cout)
     if len(outs) != first_bulk + nbulk:
         raise vlib.ToolError("harness lost cases: %d of %d" % (len(outs), first_bulk + nbulk))
